@@ -57,22 +57,22 @@ Definition tail_probe_ok (s : state) (p : tail_probe) : bool :=
 
 (** A case: initial value of the switch, the flat operations, what the
     implementation showed after each of them, and the probes run at the end. *)
-Record case := { c_init : bool; c_ops : list op; c_seen : list obs;
+Record case := { c_init : bool; c_ops : list xop; c_seen : list obs;
                  c_pipes : list pipe_probe; c_tails : list tail_probe }.
 
 Definition start_of (c : case) : state := {| run := c_init c; frames := [] |}.
 
 Definition model_of (c : case) :=
-  (run_ops (start_of c) (c_ops c),
-   map (fun p => run_hook (final_state (start_of c) (c_ops c)) (pp_thr p) (pp_hook p) (pp_v p)) (c_pipes c),
-   map (fun p => run_init_tail (final_state (start_of c) (c_ops c)) (tp_thr p) (tp_tail p)) (c_tails c)).
+  (run_xops (start_of c) (c_ops c),
+   map (fun p => run_hook (final_xstate (start_of c) (c_ops c)) (pp_thr p) (pp_hook p) (pp_v p)) (c_pipes c),
+   map (fun p => run_init_tail (final_xstate (start_of c) (c_ops c)) (tp_thr p) (tp_tail p)) (c_tails c)).
 
 Definition check_case (c : case) : bool :=
-  list_eqb obs_eqb (run_ops (start_of c) (c_ops c)) (c_seen c) &&
-  forallb (pipe_probe_ok (final_state (start_of c) (c_ops c))) (c_pipes c) &&
-  forallb (tail_probe_ok (final_state (start_of c) (c_ops c))) (c_tails c).
+  list_eqb obs_eqb (run_xops (start_of c) (c_ops c)) (c_seen c) &&
+  forallb (pipe_probe_ok (final_xstate (start_of c) (c_ops c))) (c_pipes c) &&
+  forallb (tail_probe_ok (final_xstate (start_of c) (c_ops c))) (c_tails c).
 
-Lemma check_case_sound c : check_case c = true -> c_seen c = run_ops (start_of c) (c_ops c).
+Lemma check_case_sound c : check_case c = true -> c_seen c = run_xops (start_of c) (c_ops c).
 Proof.
   unfold check_case. intros H. apply andb_true_iff in H as [H _]. apply andb_true_iff in H as [H _].
   apply (list_eqb_spec obs_eqb obs_eqb_spec) in H. congruence.
